@@ -217,7 +217,8 @@ namespace xsimd
                 ssse3 = regs1[2] >> 9 & sse_state_os_enabled;
                 sse4_1 = regs1[2] >> 19 & sse_state_os_enabled;
                 sse4_2 = regs1[2] >> 20 & sse_state_os_enabled;
-                fma3_sse42 = regs1[2] >> 12 & sse_state_os_enabled;
+                // FMA3 instructions are VEX encoded: they need the AVX (YMM) state
+                fma3_sse42 = regs1[2] >> 12 & avx_state_os_enabled;
 
                 avx = regs1[2] >> 28 & avx_state_os_enabled;
                 fma3_avx = avx && fma3_sse42;
